@@ -489,7 +489,10 @@ func (p *parser) parseWorkflowCallEvent(pos *Pos, n *yaml.Node) *WorkflowCallEve
 					case "required":
 						input.Required = p.parseBool(attr.val)
 					case "default":
-						input.Default = p.parseString(attr.val, true)
+						// `default:` / `default: null` sets no default value (the metadata file reader sees none either)
+						if !isNull(attr.val) {
+							input.Default = p.parseString(attr.val, true)
+						}
 					case "type":
 						switch attr.val.Value {
 						case "boolean":
